@@ -3,6 +3,7 @@
 Oracle: a POP3 reply reader (wire.parse_pop3_reply) + a model of the session:
 the (number, size, UIDL) table of session start, the DELE marks, and the INBOX
 as an IMAP observer sees it."""
+import asyncio
 import re
 
 from .. import common
@@ -352,6 +353,124 @@ SCHED_IMAP = [
 ]
 
 
+async def frontend_stage(loop, ctx):
+    """The POP3 session as the client has it: through the real front end
+    (pop3_server.POP3Client.start(): line reader, framing towards the per-user
+    process) into the real per-user server.  The client stream is cut into
+    arbitrary segments and ends -- often in the middle of a command: QUIT
+    without its line end, half a DELE -- with the connection going away.  Only
+    complete lines are commands; messages go only when a complete QUIT came
+    after the DELEs."""
+    import asimap.pop3_server as P
+
+    from ..rig import MemWriter
+    from .c19 import FakeServer, deframe
+
+    k = ctx["script"]
+    rnd = rng(ctx["seed"], "c20fe", k)
+    counts = ctx["counts"]
+    rig = await Rig(ctx["dir"] + "/mail", loop).start()
+    cids = CidFactory(f"f{k}-")
+    cases = []
+    try:
+        a = rig.session("A")
+        o = rig.session("O")
+        for i in range(ctx.get("fe_n", 10)):
+            rows = await observe_inbox(o)
+            while len(rows) < 4:
+                cid, m = cids.make(rnd)
+                await a.append("inbox", m)
+                rows = await observe_inbox(o)
+            n = len(rows)
+            lines = []
+            marked = set()
+            for _ in range(rnd.randint(1, 6)):
+                c = rnd.choice(["STAT", "LIST", "UIDL", "NOOP", "DELE", "DELE", "DELE", "RSET", "RETR", "TOP"])
+                if c == "DELE":
+                    j = rnd.randint(1, n)
+                    lines.append(f"DELE {j}")
+                    marked.add(j)
+                elif c == "RSET":
+                    lines.append("RSET")
+                    if rnd.random() < 0.5:
+                        marked = set()
+                    else:
+                        lines.pop()
+                elif c in ("RETR", "TOP"):
+                    lines.append(f"{c} {rnd.randint(1, n)}" + (" 1" if c == "TOP" else ""))
+                else:
+                    lines.append(c)
+            if not marked:
+                j = rnd.randint(1, n)
+                lines.append(f"DELE {j}")
+                marked.add(j)
+            ending = rnd.choice(["QUIT", "QUIT\r", "QUIT\r\n", "QUIT\r\n", "", "QU", "quit", "DELE 1", "NOOP\r", "RSET", "QUIT \r", "\r"])
+            complete_quit = ending == "QUIT\r\n"
+            stream = ("".join(x + "\r\n" for x in lines) + ending).encode()
+            expected = [x.encode() for x in lines] + ([b"QUIT"] if complete_quit else [])
+            # --- the real front end
+            cw = MemWriter("client", loop)
+            rd = asyncio.StreamReader(limit=65536)
+            pc = P.POP3Client(FakeServer(), "p", "10.0.0.9", 6, rd, cw)
+            si = pc.subprocess_intf
+            si.state = "transaction"
+            si.writer = MemWriter("sub", loop)
+            t = asyncio.create_task(pc.start())
+            pos = 0
+            while pos < len(stream):
+                step = rnd.choice([1, 2, 5, 9, 40, 400])
+                rd.feed_data(stream[pos : pos + step])
+                pos += step
+                for _ in range(rnd.choice([0, 1, 3])):
+                    await asyncio.sleep(0)
+            for _ in range(10):
+                await asyncio.sleep(0)
+            rd.feed_eof()
+            try:
+                await asyncio.wait_for(t, 30)
+            except Exception:
+                t.cancel()
+            frames, ferr = deframe(si.writer.buf)
+            counts["frontend_streams"] += 1
+            counts["frontend_ending:" + repr(ending)] += 1
+            problem = None
+            if ferr or frames != expected:
+                problem = ("pop3-front-end-relayed-other-than-the-complete-lines", f"stream {stream!r}: relayed {frames} {ferr or ''}, complete lines {expected}")
+            # --- what it relayed goes to the real per-user server, then the connection is gone
+            p3 = rig.pop3()
+            for f in frames:
+                try:
+                    await p3.cmd(f.decode("latin-1"))
+                except Exception as e:  # noqa: BLE001
+                    counts["frontend_relayed_command_failed"] += 1
+                    break
+            p3.eof()
+            await rig.settle()
+            await rig.advance(3)
+            after = await observe_inbox(o)
+            want = [r_ for j, r_ in enumerate(rows, 1) if not (complete_quit and j in marked)]
+            counts["frontend_sessions_judged"] += 1
+            if complete_quit:
+                counts["frontend_sessions_with_complete_quit"] += 1
+            if [x[:2] for x in after] != [x[:2] for x in want] and problem is None:
+                problem = ("messages-removed-without-a-complete-quit" if not complete_quit else "quit-removed-other-than-the-marked-messages",
+                           f"stream {stream!r}: INBOX before {[x[0] for x in rows]}, after {[x[0] for x in after]}, expected {[x[0] for x in want]}")
+            elif [x[:2] for x in after] != [x[:2] for x in want]:
+                problem = (problem[0], problem[1] + f"; INBOX before {[x[0] for x in rows]}, after {[x[0] for x in after]}, expected {[x[0] for x in want]}")
+            key = common.h([k, i, stream.decode("latin-1")])
+            sample = {"stream": stream.decode("latin-1"), "relayed": [f.decode("latin-1") for f in frames], "origin": "frontend"}
+            if problem:
+                cases.append(Case.make(f"fe{k}.{i}", VIOLATED, spec=ctx["spec"], nontrivial=True, key=key, sample=sample, witness={"kind": problem[0], "detail": problem[1], "stream": stream.decode("latin-1")}))
+            else:
+                cases.append(Case.make(f"fe{k}.{i}", HELD, spec=ctx["spec"], nontrivial=bool(marked), key=key, sample=sample))
+    finally:
+        try:
+            await rig.stop()
+        except Exception:
+            counts["stop_failed"] += 1
+    return cases
+
+
 def run_sched_shard(spec):
     import asyncio
     import re
@@ -524,12 +643,16 @@ def plan(tier, seed, scale):
     shards = 8 if tier == "quick" else 16
     for s in range(shards):
         specs.append({"prop": PROP, "tier": tier, "seed": seed, "shard": 100 + s, "mode": "sched", "scripts": list(range(n))[s::shards], "nsched": 6 if tier == "quick" else 20})
+    for s in range(4 if tier == "quick" else 16):
+        specs.append({"prop": PROP, "tier": tier, "seed": seed, "shard": 200 + s, "mode": "frontend", "scripts": [200 + s], "fe_n": 20 if tier == "quick" else 60})
     return specs
 
 
 def run_shard(spec):
     if spec.get("mode") == "sched":
         return run_sched_shard(spec)
+    if spec.get("mode") == "frontend":
+        return base.run_scripts(spec, frontend_stage, user_kwargs={"fe_n": spec.get("fe_n", 12)})
     return base.run_scripts(spec, script)
 
 
